@@ -119,7 +119,9 @@ def gen_model(r, slices=("F1",), n_classes=None, prims=None):
     if "F3" in slices and len(classes) >= 2 and r.random() < 0.6 and not classes[-1].get("twin"):
         # make the last class a subclass of the one before it, used through xsi:type
         sub, base = classes[-1], classes[-2]
-        if not any(fl.get("type") == ("class", sub["name"]) for fl in base["fields"]) and sub.get("simple") == base.get("simple") \
+        refs_sub = any(fl.get("type") == ("class", sub["name"]) or any(ch["type"] == ("class", sub["name"]) for ch in fl.get("choices", []))
+                       for fl in base["fields"])
+        if not refs_sub and sub.get("simple") == base.get("simple") \
                 and not (sub.get("simple") and any(f["kind"] == "Text" for f in base["fields"]) and any(f["kind"] == "Text" for f in sub["fields"])) \
                 and not any(f["kind"] in ("Wildcard", "Attributes") for f in base["fields"] + sub["fields"]):
             sub["base"] = base["name"]
